@@ -195,6 +195,10 @@ def run(ctx):
                 vs.append({"caps": "by-hand", "start": 0.5, "dt": 0.125})
             if case["ctl"] and idx % 2 == 1:
                 vs.append({"float_times": True, "start": -0.75})
+            if case["ctl"] and idx % 2 == 0:
+                vs.append({"final_only": True})                 # record_all=False: only the final state
+            if case["edims"] and idx % 4 == 1:
+                vs.append({"buffer": True})                     # tensors handed over in a re-used work buffer
             if all_diag and len(case["edims"]) >= 2:
                 for perm in itertools.permutations(range(len(case["edims"]))):
                     if list(perm) != sorted(perm):
